@@ -30,7 +30,25 @@ def nt_c12(tr):
     return False
 
 
+def has(tr, tag, pred=lambda e: True):
+    return any(e[0] == tag and pred(e) for e in tr)
+
+
+def nt_c03(tr):
+    # something beyond spawn/stop: a processed restart, a stream, a failure, or a close by last drop
+    return (has(tr, 7, lambda e: e[2] == 2) or has(tr, 1, lambda e: e[6] == 1) or has(tr, 14, lambda e: e[2] != 0)
+            or has(tr, 13, lambda e: e[3] != 0)) and has(tr, 12)
+
+
 PROPS = {
+    "C03": {
+        "families": [("lifecycle", 700, 20000), ("restart", 300, 8000), ("streams", 300, 8000), ("faults", 300, 8000)],
+        "monitors": ["C03"],
+        "theorems": ["C03_lifecycle"],
+        "nontrivial": nt_c03,
+        "rule": "cases generated from (family, VERIF_SEED, index) by harness/src/gen.rs; non-trivial = the case contains lifecycle callbacks and at least one of: a processed restart, a stream-attached actor, a failed/panicked/cancelled task end, a failed callback; distinct = distinct case JSON",
+        "assumptions": ["callbacks of library-defined actors (the broker) are not observable and are not checked"],
+    },
     "C12": {
         "families": [("backpressure", 800, 30000), ("mailbox", 300, 8000)],
         "monitors": ["C12", "C12_nowait"],
@@ -49,6 +67,16 @@ COMMON_NOTE = ("Trusted: Coq kernel; the hand-written model's fidelity (checked 
                "No axioms. Real-thread races inside external crates and real wake-ups beyond the sampled cases are outside.")
 
 MANIFEST_TEXT = {
+    "C03": {
+        "text": "Theorem C03_lifecycle (Coq, simulation between the model's loop phases and an explicit lifecycle automaton over observable events; "
+                "unbounded in actors, clients, restarts, trace length): every execution the model accepts is a run of the automaton "
+                "(started once per incarnation before any handler; handlers one at a time; [finished] stopped exactly once on every graceful end, nothing after; "
+                "failed started => no handler, failed end). Correspondence on every run: the model must accept every implementation trace of the lifecycle / restart / streams / faults families; "
+                "the extracted automaton chk_C03 and an independent search acceptor run on the implementation traces.",
+        "note": COMMON_NOTE,
+        "technique": "Rocq/Coq proof (simulation to a lifecycle automaton) over an executable model; correspondence by differential run of model and implementation",
+        "design_ref": "DESIGN.md section 6 C03",
+    },
     "C12": {
         "text": "Theorem C12_bound (Coq, by simulation between the model and the property acceptor, no bound on actors, clients, "
                 "schedule or trace length): every execution the model accepts satisfies the backpressure bound; plus "
